@@ -49,6 +49,7 @@ FIELD_PROPS = {
     "srv.cl.mutTick": ["C01", "C02", "C11"],
     "srv.cl.inflight": ["C01", "C02", "C10", "C11"],
     "srv.cl.nextIdx": ["C11"],
+    "ran.SrvFrame": ["C01", "C09", "C11"],      # send_replication ran although / although not expected
     "srv.despawnBuf": ["C01", "C03"],
     "srv.removalBuf": ["C01", "C03"],
     "net.upd": ["C01", "C03", "C08"],
